@@ -290,7 +290,7 @@ func programs(n int) []Case {
 func TestC01(t *testing.T) {
 	n := 150
 	if vkit.Tier() == "thorough" {
-		n = 1500
+		n = 300
 	}
 	if v := os.Getenv("VERIF_CHECKS"); v != "" {
 		fmt.Sscan(v, &n)
